@@ -35,6 +35,8 @@ struct Shared {
     site: Vec<Mutex<&'static str>>,
     /// number of scheduling points each thread has passed
     points: Vec<AtomicUsize>,
+    /// true while the thread is inside the harness callback (its futex waits are the harness's own)
+    in_callback: Vec<AtomicBool>,
     handles: Mutex<Vec<Option<std::thread::Thread>>>,
 }
 
@@ -50,6 +52,7 @@ fn callback(site: &'static str) {
         None => return,
     };
     let sh = SHARED.get().expect("shared");
+    sh.in_callback[id].store(true, Ordering::SeqCst);
     *sh.site[id].lock().unwrap() = site;
     sh.points[id].fetch_add(1, Ordering::SeqCst);
     sh.state[id].store(ST_AT_POINT, Ordering::SeqCst);
@@ -57,6 +60,7 @@ fn callback(site: &'static str) {
     while !sh.grant[id].swap(false, Ordering::SeqCst) {
         std::thread::park_timeout(Duration::from_millis(20));
     }
+    sh.in_callback[id].store(false, Ordering::SeqCst);
 }
 
 fn in_foreign_futex(tid: i64) -> bool {
@@ -127,6 +131,7 @@ pub fn child_main(ops: &[String], schedule: &[usize]) -> Value {
         tid: (0..n).map(|_| AtomicI64::new(0)).collect(),
         site: (0..n).map(|_| Mutex::new("")).collect(),
         points: (0..n).map(|_| AtomicUsize::new(0)).collect(),
+        in_callback: (0..n).map(|_| AtomicBool::new(false)).collect(),
         handles: Mutex::new(vec![None; n]),
     };
     let _ = SHARED.set(sh);
@@ -206,7 +211,7 @@ pub fn child_main(ops: &[String], schedule: &[usize]) -> Value {
                 }
                 all_quiet = false;
                 let tid = sh.tid[id].load(Ordering::SeqCst);
-                if tid != 0 && in_foreign_futex(tid) {
+                if tid != 0 && !sh.in_callback[id].load(Ordering::SeqCst) && in_foreign_futex(tid) && !sh.in_callback[id].load(Ordering::SeqCst) {
                     futex_polls[id] += 1;
                     if futex_polls[id] >= 15 && sh.state[id].load(Ordering::SeqCst) == ST_RUNNING {
                         blocked[id] = true;
@@ -219,8 +224,9 @@ pub fn child_main(ops: &[String], schedule: &[usize]) -> Value {
             if all_quiet {
                 break;
             }
-            if wait_start.elapsed() > Duration::from_secs(4) || start.elapsed() > Duration::from_secs(20) {
-                verdict = "deadlock-or-timeout".into();
+            if wait_start.elapsed() > Duration::from_secs(15) || start.elapsed() > Duration::from_secs(60) {
+                // inconclusive (possibly an overloaded machine): the parent treats this as machinery, not as a verdict
+                verdict = "timeout".into();
                 break 'outer;
             }
             std::thread::sleep(Duration::from_micros(500));
@@ -314,6 +320,9 @@ fn run_child(exe: &std::path::Path, ops: &[String], schedule: &[usize]) -> Resul
 
 fn judge_trace(ops: &[String], trace: &Value) -> Result<(), String> {
     let verdict = trace["verdict"].as_str().unwrap_or("");
+    if verdict == "timeout" {
+        return Err("TIMEOUT".into());
+    }
     if verdict != "complete" {
         return Err(format!("schedule ended with {verdict}"));
     }
@@ -379,6 +388,10 @@ pub fn explore_harness(exe: &std::path::Path, ops: &[String], bound: usize, max_
             st.sample = Some(json!({"ops": ops, "schedule": prefix, "decisions": ds.iter().map(|d| json!([d["chosen"], d["sites"]])).collect::<Vec<_>>(), "results": trace["results"]}));
         }
         if let Err(e) = judge_trace(ops, &trace) {
+            if e == "TIMEOUT" {
+                st.machinery = Some(format!("schedule {:?}: child timed out waiting for quiescence (inconclusive)", prefix));
+                break;
+            }
             // replay twice: must fail identically
             let choices: Vec<usize> = ds.iter().map(|d| d["choice"].as_u64().unwrap_or(0) as usize).collect();
             let again1 = run_child(exe, ops, &choices).ok().map(|t| judge_trace(ops, &t).err());
